@@ -211,10 +211,6 @@ func (s *seqRun) nospcScenarios(h int) {
 			s.opWrite(a, off, 4096, 2, s.mkData(4096)) // needs 2 (3) blocks
 			failedA := s.lastStatus != nfstypes.NFS3_OK
 			s.coherenceAfter(failedA)
-			s.opCreate("mkdir", s.root(), "newdir", 0, nil) // needs 1 block for "." and ".."
-			s.coherenceAfter(s.lastStatus != nfstypes.NFS3_OK)
-			s.opCreate("symlink", s.root(), "newlink", 0, s.mkData(100)) // needs 1 block
-			s.coherenceAfter(s.lastStatus != nfstypes.NFS3_OK)
 			s.c09 = false
 			// somebody else takes what is left
 			// (its first half is zeros: read as an index block it has free slots, so that a file
@@ -225,6 +221,14 @@ func (s *seqRun) nospcScenarios(h int) {
 			}
 			s.opWrite(b, 0, 4096, 2, bdata)
 			bOk := s.lastStatus == nfstypes.NFS3_OK
+			// nothing (or one block) is left now: requests that need a block for a new object
+			s.c09 = true
+			s.afterOp("prime", false)
+			s.opCreate("mkdir", s.root(), "newdir", 0, nil) // needs 1 block for "." and ".."
+			s.coherenceAfter(s.lastStatus != nfstypes.NFS3_OK)
+			s.opCreate("symlink", s.root(), "newlink", 0, s.mkData(100)) // needs 1 block
+			s.coherenceAfter(s.lastStatus != nfstypes.NFS3_OK)
+			s.c09 = false
 			// space comes back; the file of the failed write is used again
 			s.opRemove("remove", s.root(), "filler")
 			s.opRemove("remove", s.root(), "filler2")
